@@ -230,6 +230,45 @@ func (fs LocalFileSystem) Mkdir(ctx context.Context, name string) error {
 	}
 }
 
+// checkCopyMove validates a COPY or MOVE before anything is modified: the
+// source must exist, source and destination must be distinct and must not
+// contain one another, and the parent of the destination must be an existing
+// directory. It reports whether the destination doesn't exist yet.
+func checkCopyMove(srcPath, dstPath string, noOverwrite bool) (srcInfo os.FileInfo, created bool, err error) {
+	srcInfo, err = os.Stat(srcPath)
+	if err != nil {
+		return nil, false, errFromOS(err)
+	}
+
+	sep := string(filepath.Separator)
+	if srcPath == dstPath {
+		return nil, false, NewHTTPError(http.StatusForbidden, fmt.Errorf("webdav: source and destination are the same resource"))
+	} else if strings.HasPrefix(dstPath, strings.TrimSuffix(srcPath, sep)+sep) || strings.HasPrefix(srcPath, strings.TrimSuffix(dstPath, sep)+sep) {
+		return nil, false, NewHTTPError(http.StatusForbidden, fmt.Errorf("webdav: source and destination contain one another"))
+	}
+
+	if fi, err := os.Stat(filepath.Dir(dstPath)); err != nil {
+		if httpErr := errFromOS(err); internal.IsNotFound(httpErr) {
+			return nil, false, NewHTTPError(http.StatusConflict, httpErr)
+		} else {
+			return nil, false, httpErr
+		}
+	} else if !fi.IsDir() {
+		return nil, false, NewHTTPError(http.StatusConflict, fmt.Errorf("webdav: destination parent is not a collection"))
+	}
+
+	if _, err := os.Stat(dstPath); err != nil {
+		if !os.IsNotExist(err) {
+			return nil, false, errFromOS(err)
+		}
+		created = true
+	} else if noOverwrite {
+		return nil, false, NewHTTPError(http.StatusPreconditionFailed, os.ErrExist)
+	}
+
+	return srcInfo, created, nil
+}
+
 func copyRegularFile(src, dst string, perm os.FileMode) error {
 	srcFile, err := os.Open(src)
 	if err != nil {
@@ -262,24 +301,13 @@ func (fs LocalFileSystem) Copy(ctx context.Context, src, dst string, options *Co
 		return false, err
 	}
 
-	// TODO: "Note that an infinite-depth COPY of /A/ into /A/B/ could lead to
-	// infinite recursion if not handled correctly"
-
-	srcInfo, err := os.Stat(srcPath)
+	srcInfo, created, err := checkCopyMove(srcPath, dstPath, options.NoOverwrite)
 	if err != nil {
-		return false, errFromOS(err)
+		return false, err
 	}
 	srcPerm := srcInfo.Mode() & os.ModePerm
 
-	if _, err := os.Stat(dstPath); err != nil {
-		if !os.IsNotExist(err) {
-			return false, errFromOS(err)
-		}
-		created = true
-	} else {
-		if options.NoOverwrite {
-			return false, NewHTTPError(http.StatusPreconditionFailed, os.ErrExist)
-		}
+	if !created {
 		if err := os.RemoveAll(dstPath); err != nil {
 			return false, errFromOS(err)
 		}
@@ -322,15 +350,12 @@ func (fs LocalFileSystem) Move(ctx context.Context, src, dst string, options *Mo
 		return false, err
 	}
 
-	if _, err := os.Stat(dstPath); err != nil {
-		if !os.IsNotExist(err) {
-			return false, errFromOS(err)
-		}
-		created = true
-	} else {
-		if options.NoOverwrite {
-			return false, NewHTTPError(http.StatusPreconditionFailed, os.ErrExist)
-		}
+	_, created, err = checkCopyMove(srcPath, dstPath, options.NoOverwrite)
+	if err != nil {
+		return false, err
+	}
+
+	if !created {
 		if err := os.RemoveAll(dstPath); err != nil {
 			return false, errFromOS(err)
 		}
